@@ -228,6 +228,18 @@ def unit_introns(U):
 
 
 def _replay_introns():
+    """native replay of create_introns / create_splice_sites: exon layouts with gaps of one, two and many bases,
+    touching exons, both strands; expectation computed from the statement"""
+    last = None
+    for strand in ("-", "+", "."):
+        for exons in ([(60, 100), (1, 10), (30, 40)], [(1, 10), (12, 20), (23, 30), (60, 100)], [(5, 9), (10, 14), (16, 16), (18, 30)]):
+            last = _replay_introns1(strand, exons)
+            if last["violates"]:
+                return last
+    return last
+
+
+def _replay_introns1(strand, exons):
     feats, rels = [], []
     def mk(i, t, s, e, st="+"):
         f = F.Feature(seqid="c", featuretype=t, start=s, end=e, strand=st, attributes={"ID": [i]})
@@ -235,17 +247,23 @@ def _replay_introns():
         feats.append(f)
         return f
     mk("g", "gene", 1, 100)
-    mk("t", "mRNA", 1, 100, "-")
-    for j, (s, e) in enumerate([(60, 100), (1, 10), (30, 40)]):
-        mk("e%d" % j, "exon", s, e, "-")
+    mk("t", "mRNA", 1, 100, strand)
+    for j, (s, e) in enumerate(exons):
+        mk("e%d" % j, "exon", s, e, strand)
         rels.append(("t", "e%d" % j, 1))
     rels.append(("g", "t", 1))
     db = native_db(feats, rels)
-    introns = [(i.start, i.end, i.featuretype, i.strand) for i in db.create_introns()]
-    sites = sorted((s.start, s.end, s.featuretype) for s in db.create_splice_sites())
-    exp_i = [(11, 29, "intron", "-"), (41, 59, "intron", "-")]
-    exp_s = sorted([(11, 12, "three_prime_cis_splice_site"), (41, 42, "three_prime_cis_splice_site"), (28, 29, "five_prime_cis_splice_site"), (58, 59, "five_prime_cis_splice_site")])
-    return {"expected": [exp_i, exp_s], "observed": [introns, sites], "violates": introns != exp_i or sites != exp_s}
+    try:
+        introns = [(i.start, i.end, i.featuretype, i.strand) for i in db.create_introns()]
+        sites = sorted((s.start, s.end, s.featuretype) for s in db.create_splice_sites())
+    except Exception as ex:
+        return {"inputs": {"strand": strand, "exons": exons}, "observed": "raised %r" % (ex,), "violates": True}
+    srt = sorted(exons)
+    exp_i = [(a[1] + 1, b[0] - 1, "intron", strand) for a, b in zip(srt, srt[1:]) if b[0] - a[1] > 1]
+    left = {"+": "five_prime_cis_splice_site", "-": "three_prime_cis_splice_site"}.get(strand, "splice_site")
+    right = {"+": "three_prime_cis_splice_site", "-": "five_prime_cis_splice_site"}.get(strand, "splice_site")
+    exp_s = sorted([(s, s + 1, left) for (s, e, _, _) in exp_i] + [(e - 1, e, right) for (s, e, _, _) in exp_i])
+    return {"inputs": {"strand": strand, "exons": exons}, "expected": [exp_i, exp_s], "observed": [introns, sites], "violates": introns != exp_i or sites != exp_s}
 
 
 def unit_splice(U):
